@@ -3,6 +3,8 @@ import GeoVerif.Model.ErrContract
 import GeoVerif.Model.UTMUPS
 import GeoVerif.Model.MGRS
 import GeoVerif.Model.GridCodes
+import GeoVerif.Model.ErrCover
+import GeoVerif.Gen.ApiC13
 /-! Correspondence relations for C13 (error contract): the verdict on every reported call is computed here from the
 contract tables / predicates of `Model/ErrContract.lean` and the `Except`-returning models of C04, C05, C18. -/
 namespace GeoVerif.Corr.C13
@@ -48,17 +50,17 @@ def handle (op : String) (args res : List String) : Option Verdict :=
   match op with
   | "c13_sw" => some <|
     match args, res with
-    | [name, pos, val], [e, _, w, n] =>
+    | [name, pos, val], [e, _, w, n, sm] =>
       (match find name, parseI pos, parseF val, parseExc e with
        | some ent, some p, some v, some exc =>
-         let r : Report := { exc := exc, written := bitsOf w, isnan := bitsOf n }
+         let r : Report := { exc := exc, written := bitsOf w, isnan := bitsOf n, same := bitsOf sm }
          if exc == .hang then .skip "hang (reported by the harness as a failing input)"
          else if p < 0 then
            (if ent.checkBase r then .ok else .bad s!"baseline call of {name}: expected no exception and every output written and valid, got exc={e} {w} {n}")
          else if p.toNat ≥ ent.nin then .bad s!"dependence table of {name} has {ent.nin} inputs, harness swept input {p}"
          else if v.isNaN then
            (if ent.checkNaN p.toNat r then .ok
-            else .bad s!"nan-contract: {name} with NaN in argument {p}: expected pattern {ent.rows.getD p.toNat ""} (1 = NaN, 0 = valid, x = free), exception allowed={ent.nanErr.contains p.toNat}; got exc={e} {w} {n}")
+            else .bad s!"nan-contract: {name} with NaN in argument {p}: expected pattern {ent.rows.getD p.toNat ""} (1 = NaN, 0 = valid, '=' = valid and bit-identical to the NaN-free baseline call, x = free), exception allowed={ent.nanErr.contains p.toNat}; got exc={e} {w} {n} {sm}")
          else
            (if ent.checkOther r then .ok
             else .bad s!"exception-contract: {name} with {showF v} in argument {p}: exc={e} (documented to validate: {ent.validates}) {w}")
@@ -78,9 +80,88 @@ def handle (op : String) (args res : List String) : Option Verdict :=
             else (match pb r with
               | some acc => if acc == ok then .ok else .bad s!"ctor-domain: {cls} {p.map showF}: implementation accepted={acc}, validation predicate says {ok}"
               | none => .bad s!"ctor-domain: {cls} threw a foreign exception {r}")
-          | none => .bad s!"no validation predicate for constructor {cls} with {p.length} parameters")
+          | none =>
+            (match ctorBounds cls p with
+             | some (mustReject, mustAccept) =>
+               if r == "!hang" then .skip "hang (reported by the harness)"
+               else if r == "!A" then .skip "allocation failure"
+               else (match pb r with
+                 | some acc =>
+                   if acc && mustReject then .bad s!"ctor-domain: {cls} {p.map showF}: implementation accepted parameters that must be rejected"
+                   else if !acc && mustAccept then .bad s!"ctor-domain: {cls} {p.map showF}: implementation rejected parameters that must be accepted"
+                   else .ok
+                 | none => .bad s!"ctor-domain: {cls} threw a foreign exception {r}")
+             | none => .bad s!"no validation predicate for constructor {cls} with {p.length} parameters"))
        | none => .bad "parse")
     | _, _ => .bad "parse"
+  | "c13_shctor" => some <|
+    match args, res with
+    | form :: nums, [r] =>
+      (match nums.mapM parseI with
+       | some v =>
+         let rec sets : List Int → Option (List ShSet)
+           | n :: nmx :: mmx :: cs :: ss :: rest => (sets rest).map (⟨n, nmx, mmx, cs, ss⟩ :: ·)
+           | [] => some []
+           | _ => none
+         (match sets v with
+          | some ss =>
+            (match shCtorOK form ss with
+             | some ok =>
+               if r == "!A" then .skip "allocation failure"
+               else (match pb r with
+                 | some acc => if acc == ok then .ok else .bad s!"ctor-domain: {form} (N nmx mmx csize ssize)={v}: implementation accepted={acc}, the size / index predicate says {ok}"
+                 | none => .bad s!"ctor-domain: {form} threw a foreign exception {r}")
+             | none => .bad s!"no size predicate for {form} with {ss.length} coefficient sets")
+          | none => .bad "parse")
+       | none => .bad "parse")
+    | _, _ => .bad "parse"
+  | "c13_selfcheck" => some <|
+    -- executed natively on every run: the numeric codes of all keys are the codes of their strings (the kernel-checked coverage
+    -- obligations compare codes), and the generated inventory is well formed
+    let badTable := (table.filter fun e => !e.key.ok).map (·.name)
+    let keysOf (b : ErrCover.By) : List Key := match b with
+      | .table k _ | .ctor k | .parser k | .file k | .sizes k | .forwards k _ | .via k _ => [k]
+      | .excluded _ => []
+    let badCover := (ErrCover.coverage.filter fun c => !(c.api.ok && (keysOf c.how).all Key.ok)).map (·.api.s)
+    let badApi := (Gen.ApiC13.api.filter fun f => !(f.key.ok && f.wf)).map (·.key.s)
+    let badLists := ((ctorTable.map (·.1)) ++ parsers ++ fileReaders ++ sizeForms).filter fun k => !k.ok
+    -- the coverage obligation itself, evaluated natively so that a broken `api_covered` names the functions concerned
+    let uncovered := (Gen.ApiC13.api.filter fun f => f.hasIn && !(ErrCover.coverage.any (·.api == f.key))).map (·.key.s)
+    let stale := (ErrCover.coverage.filter fun c => !(Gen.ApiC13.api.any (·.key == c.api))).map (·.api.s)
+    if !uncovered.isEmpty || !stale.isEmpty then
+      .bad s!"api-coverage: public functions of include/GeographicLib/*.hpp with a floating-point / string / vector / stream input that no part of the contract covers: {uncovered}; covers of functions that no longer exist: {stale}"
+    else if !ErrCover.checkCoverage Gen.ApiC13.api ErrCover.coverage then
+      .bad "api-coverage: the coverage list does not pass checkCoverage (an invalid cover, or the list is not sorted like the inventory)"
+    else
+    if badTable.isEmpty && badCover.isEmpty && badApi.isEmpty && badLists.isEmpty then .ok
+    else .bad s!"key-code mismatch (label and numeric code of a key disagree): table {badTable} coverage {badCover} api {badApi} lists {badLists.map (·.s)}"
+  | "c13_entry" => some <|
+    -- the harness's own sweep table: every entry it registers must be a row of the Lean dependence table with the same arities
+    match args with
+    | [name, nin, nout] =>
+      (match find name, nin.toNat?, nout.toNat? with
+       | some ent, some ni, some no =>
+         if ent.nin == ni && ent.nout == no then .ok
+         else .bad s!"table-arity: harness entry {name} has {ni} inputs / {no} outputs, the dependence table says {ent.nin} / {ent.nout}"
+       | none, _, _ => .bad s!"entry point {name} is missing from the dependence table (Model/ErrContract.lean)"
+       | _, _, _ => .bad "parse")
+    | _ => .bad "parse"
+  | "c13_ctorclass" => some <|
+    match args with
+    | [cls, np] =>
+      if ctorTable.any (fun c => c.1.s == cls && some c.2 == np.toNat?) then .ok
+      else .bad s!"ctor-table: the harness drives constructor class {cls} with {np} parameters, which is not in ErrContract.ctorTable"
+    | _ => .bad "parse"
+  | "c13_ctorcount" => some <|
+    match args with
+    | [n] => if n.toNat? == some ctorTable.length then .ok
+             else .bad s!"ctor-table: the harness drives {n} constructor classes, ErrContract.ctorTable lists {ctorTable.length} (a listed class that is never executed)"
+    | _ => .bad "parse"
+  | "c13_entrycount" => some <|
+    match args with
+    | [n] => if n.toNat? == some table.length then .ok
+             else .bad s!"table-arity: the harness registers {n} entry points, the dependence table has {table.length} rows (a row without a harness entry is never exercised)"
+    | _ => .bad "parse"
   | "c13_nncheck" => some <|
     match args, res with
     | [np, ts, b, node], [r] =>
@@ -190,6 +271,7 @@ def handle (op : String) (args res : List String) : Option Verdict :=
     | _, _ => .bad "parse"
   | "c13_parse" => some (structural s!"parser {args.headD ""}" res)
   | "c13_int" => some (structural s!"{args.headD ""}" res)
+  | "c13_default" => some (structural s!"default-constructed {args.headD ""}" res)
   | "c13_geoidfile" => some (structural "Geoid constructor" (res.take 1))
   | "c13_magfile" => some (structural "MagneticModel constructor" (res.take 1))
   | "c13_gravfile" => some (structural "GravityModel constructor" (res.take 1))
